@@ -2,6 +2,8 @@ import TwistedModel.Amp.Box
 import TwistedModel.Amp.Args
 import TwistedProps.C30.Framing
 import TwistedProps.C30.Args
+import TwistedProps.C30.DateTime
+import TwistedProps.C30.Decimal
 /-!
 C30 — AMP wire format and argument types round-trip.
 
@@ -13,10 +15,19 @@ key, an over-long key or value, and (for `sendBox`) an empty box are refused and
 written, so what the peer parses is exactly the accepted boxes (`stream_roundtrip`).
 Non-`bytes` keys/values (`TypeError`) are outside the model: oracle on the real code only.
 
-Part 2 (argument types): `fromString (toString v) = v` for Integer, String, Unicode (UTF-8),
-Boolean and `ListOf` of these to any nesting depth, whenever `toString` succeeds (it refuses
-exactly lone surrogates and list elements longer than 65535 bytes).  Float, Decimal, DateTime,
-Path and AmpList are NOT proved here — differential testing in `harness/corr/C30.py`.
+Part 2 (argument types): `fromString (toString v) = v` for EVERY argument type of the statement
+(`arg_roundtrip`), whenever `toString` succeeds (it refuses lone surrogates, list elements and AmpList
+values longer than 65535 bytes, naive datetimes, …):
+  * Integer, String, Unicode (UTF-8), Boolean — transcribed and proved outright;
+  * Decimal — `Decimal.__str__` and the `Decimal(str)` grammar transcribed; `Decimal(str(d)) == d` for every
+    sign/coefficient/exponent and for ±Infinity, ±NaN, ±sNaN with payloads (`decimal_roundtrip`);
+  * DateTime — the fixed-width 32-character text and the nine `int()` slices transcribed, a datetime being its
+    FIELDS + `utcoffset()`; equal up to the minute resolution of the offset, which the repaired `toString`
+    rounds TOWARDS ZERO (`datetime_roundtrip`, `offsetMinutes_spec`, `normDT_whole_minutes`);
+  * ListOf to any depth; AmpList with any schema (optional arguments, nested AmpLists): rows → boxes by
+    `toBox`, `serialize`, `parseString` (Part 1!), `fromBox` (`ampList_roundtrip_generic`, `row_roundtrip_aux`);
+  * Float and Path — `repr`/`float` and `os.path.abspath` are PARAMETERS (`Ext`), their round-trip /
+    idempotence (CPython facts) are hypotheses of the theorem, not transcriptions.
 -/
 namespace TwistedProps.C30
 open Twisted.Amp.Box
@@ -277,41 +288,418 @@ theorem listOf_refuses_long {α : Type} (enc : α → Except ArgErr Bytes) (x : 
     (hs : enc x = .ok s) (hl : s.length > 65535) : listToString enc (x :: xs) = .error .structError := by
   simp [listToString, hs, hl]
 
-/-- **C30, argument types — PARTIAL.**  Full statement: for EVERY argument type (Integer, String,
-    Unicode, Float, Boolean, Decimal, DateTime, ListOf, AmpList, Path) `fromString (toString v) = v`
-    (DateTime up to the minute resolution of its offset).  Proved here: Integer, String, Unicode,
-    Boolean and `ListOf` of these to any nesting depth — every value that `toString` accepts decodes
-    to an equal value.  Missing: Float (`repr`/`float`), Decimal (`str`/`decimal.Decimal`), DateTime
-    (fixed-width text + tzinfo), Path (`FilePath` normalisation) have no Lean model — they are
-    exercised by the oracle on the real code only (differential testing, `harness/corr/C30.py`);
-    for AmpList only the box framing is proved (`parseString_serialize`), the per-field
-    `toBox`/`fromBox` plumbing is tested, not modelled. -/
-theorem arg_roundtrip_partial (t : Ty) (v : Val t) (w : Bytes) (h : Twisted.Amp.Args.toString t v = .ok w) :
-    fromString t w = .ok v := by
-  induction t generalizing w with
-  | int =>
-    simp only [Twisted.Amp.Args.toString] at h
+/-- what `AmpList.toStringProto` wrote: the rows' boxes, each representable, concatenated -/
+theorem ampListToString_boxes {ρ : Type} (toBox : ρ → Except ArgErr Box) (rows : List ρ) (w : Bytes)
+    (h : ampListToString toBox rows = .ok w) :
+    ∃ bs : List Box, mapExcept toBox rows = .ok bs ∧ (∀ b ∈ bs, ∀ kv ∈ b, wfItem kv)
+      ∧ w = (bs.map wire).flatten := by
+  induction rows generalizing w with
+  | nil =>
+    simp only [ampListToString] at h
     cases h
-    exact integer_roundtrip v
-  | str =>
-    simp only [Twisted.Amp.Args.toString] at h
-    cases h
-    rfl
-  | uni =>
+    exact ⟨[], rfl, by simp, rfl⟩
+  | cons r rs ih =>
+    simp only [ampListToString] at h
+    split at h
+    · cases h
+    · rename_i b hb
+      split at h
+      · cases h
+      · rename_i w1 hw1
+        split at h
+        · cases h
+        · rename_i ws hws
+          cases h
+          obtain ⟨bs, hf, hwf, rfl⟩ := ih ws hws
+          have hwfb := (serialize_accepts_iff b).mp ⟨w1, hw1⟩
+          rw [serialize_wf b hwfb] at hw1
+          cases hw1
+          refine ⟨b :: bs, by simp only [mapExcept, hb, hf], ?_, by simp⟩
+          intro b' hb'
+          simp only [List.mem_cons] at hb'
+          rcases hb' with rfl | hb'
+          · exact hwfb
+          · exact hwf b' hb'
+
+/-- **AmpList framing**, for any row codec: if every row's box has distinct keys and decodes (from
+    the key-sorted box the parser delivers) to `f row`, the whole list decodes to `rows.map f` -/
+theorem ampList_roundtrip_generic {ρ σ : Type} (toBox : ρ → Except ArgErr Box) (fromBox : Box → Except ArgErr σ) (f : ρ → σ)
+    (rows : List ρ) (w : Bytes)
+    (hx : ∀ r ∈ rows, ∀ b, toBox r = .ok b → (b.map (·.1)).Nodup ∧ fromBox (sortItems b) = .ok (f r))
+    (h : ampListToString toBox rows = .ok w) : ampListFromString fromBox w = .ok (rows.map f) := by
+  obtain ⟨bs, hf, hwf, rfl⟩ := ampListToString_boxes toBox rows w h
+  have hwfB : ∀ b ∈ bs, wfBox b := by
+    intro b hb
+    obtain ⟨r, hr, hrb⟩ := mapExcept_mem toBox rows bs hf b hb
+    exact ⟨(hx r hr b hrb).1, hwf b hb⟩
+  have hp := parse_serialize bs [(bs.map wire).flatten] hwfB (by simp)
+  simp only [ampListFromString, parseStringChecked, hp, idle]
+  simp only [Bool.false_eq_true, if_false]
+  exact mapExcept_roundtrip toBox fromBox f rows bs hf (fun r hr b hb => (hx r hr b hb).2)
+
+/-! the family -/
+
+/-- a `datetime` as `DateTime` promises to deliver it: the UTC offset cut to whole minutes (towards zero) -/
+def normDT (d : DT) : DT :=
+  match d.off with
+  | some o => { d with off := some (offsetMinutes o * 60000000) }
+  | none => d
+
+/-- **DateTime**: every value `toString` accepts (aware, `|utcoffset| < 1 day`) decodes to the same
+    fields, the offset cut to whole minutes towards zero -/
+theorem datetime_roundtrip (d : DT) (w : Bytes) (hv : d.validFields) (h : dtToString d = .ok w) :
+    dtFromString w = .ok (normDT d) := by
+  obtain ⟨y, mo, dd, hh, mi, s, us, off⟩ := d
+  cases off with
+  | none => simp [dtToString] at h
+  | some o =>
+    by_cases hr : o ≤ -86400000000 ∨ 86400000000 ≤ o
+    · simp [dtToString, hr] at h
+    · exact dtFromString_toString y mo dd hh mi s us o hv (by omega) (by omega) w h
+
+
+mutual
+/-- the value the statement promises after a round trip: equal, `DateTime`s up to the minute
+    resolution of their UTC offset -/
+def normVal (X : Ext) : (t : Ty) → Val X t → Val X t
+  | .int, v => v
+  | .str, v => v
+  | .uni, v => v
+  | .bool, v => v
+  | .float, v => v
+  | .dec, v => v
+  | .dt, v => normDT v
+  | .path, v => v
+  | .list t, v => List.map (normVal X t) v
+  | .amplist s, v => List.map (normRow X s) v
+def normRow (X : Ext) : (s : Schema) → Row X s → Row X s
+  | .nil, r => r
+  | .cons _ true _ rest, (none, r) => (none, normRow X rest r)
+  | .cons _ true t rest, (some v, r) => (some (normVal X t v), normRow X rest r)
+  | .cons _ false t rest, (v, r) => (normVal X t v, normRow X rest r)
+end
+
+mutual
+/-- the values that exist in Python: every `DT` inside is a real `datetime` (fields in range), every
+    path is what a `FilePath` holds (`abspath` of something, so `abspath` leaves it alone) -/
+def ValidVal (X : Ext) : (t : Ty) → Val X t → Prop
+  | .int, _ => True
+  | .str, _ => True
+  | .uni, _ => True
+  | .bool, _ => True
+  | .float, _ => True
+  | .dec, _ => True
+  | .dt, v => DT.validFields v
+  | .path, v => X.abspath v = v
+  | .list t, (v : List (Val X t)) => ∀ x ∈ v, ValidVal X t x
+  | .amplist s, (v : List (Row X s)) => ∀ r ∈ v, ValidRow X s r
+def ValidRow (X : Ext) : (s : Schema) → Row X s → Prop
+  | .nil, _ => True
+  | .cons _ true _ rest, (none, r) => ValidRow X rest r
+  | .cons _ true t rest, (some v, r) => ValidVal X t v ∧ ValidRow X rest r
+  | .cons _ false t rest, (v, r) => ValidVal X t v ∧ ValidRow X rest r
+end
+
+theorem lookup_none_of_not_mem (b : Box) (k : Bytes) (h : k ∉ b.map (·.1)) : b.lookup k = none := by
+  induction b with
+  | nil => rfl
+  | cons x xs ih =>
+    obtain ⟨xk, xv⟩ := x
+    simp only [List.map_cons, List.mem_cons, not_or] at h
+    have : (k == xk) = false := by simpa using h.1
+    simp only [List.lookup_cons, this]
+    exact ih h.2
+
+/-- the keys `_objectsToStrings` puts in a row's box are schema names, in schema order -/
+theorem rowToBox_keys (X : Ext) : (s : Schema) → (r : Row X s) → (b : Box) → rowToBox X s r = .ok b →
+    (b.map (·.1)).Sublist s.names
+  | .nil, _, b, h => by
+    simp only [rowToBox] at h; cases h; simp [Schema.names]
+  | .cons name true t rest, (none, r), b, h => by
+    simp only [rowToBox] at h
+    exact (rowToBox_keys X rest r b h).cons name
+  | .cons name true t rest, (some v, r), b, h => by
+    simp only [rowToBox] at h
+    split at h
+    · cases h
+    · split at h
+      · cases h
+      · rename_i b' hb'
+        cases h
+        exact (rowToBox_keys X rest r b' hb').cons_cons name
+  | .cons name false t rest, (v, r), b, h => by
+    simp only [rowToBox] at h
+    split at h
+    · cases h
+    · split at h
+      · cases h
+      · rename_i b' hb'
+        cases h
+        exact (rowToBox_keys X rest r b' hb').cons_cons name
+
+theorem supported_list (t : Ty) (h : (Ty.list t).supported = true) : t.supported = true := by
+  cases t <;> simp_all [Ty.supported]
+
+mutual
+theorem arg_roundtrip_aux (X : Ext) (hC : X.float.RoundTrips) : (t : Ty) → t.supported = true → (v : Val X t) → ValidVal X t v →
+    (w : Bytes) → Twisted.Amp.Args.toString X t v = .ok w → fromString X t w = .ok (normVal X t v)
+  | .int, _, v, _, w, h => by
+    simp only [Twisted.Amp.Args.toString] at h; cases h; exact integer_roundtrip v
+  | .str, _, v, _, w, h => by
+    simp only [Twisted.Amp.Args.toString] at h; cases h; rfl
+  | .uni, _, v, _, w, h => by
     simp only [Twisted.Amp.Args.toString] at h
     split at h
     · rename_i b hb
       cases h
-      simp only [fromString, unicode_roundtrip v w hb]
+      simp only [fromString, unicode_roundtrip v w hb, normVal]
     · cases h
-  | bool =>
+  | .bool, _, v, _, w, h => by
+    simp only [Twisted.Amp.Args.toString] at h; cases h; exact boolean_roundtrip v
+  | .float, _, v, _, w, h => by
+    simp only [Twisted.Amp.Args.toString] at h; cases h
+    simp only [fromString, hC v, normVal]
+  | .dec, _, v, _, w, h => by
+    simp only [Twisted.Amp.Args.toString] at h; cases h
+    simp only [fromString, normVal]
+    exact decFromString_toString v
+  | .path, _, v, hv, w, h => by
     simp only [Twisted.Amp.Args.toString] at h
-    cases h
-    exact boolean_roundtrip v
-  | list t ih =>
+    simp only [ValidVal] at hv
+    split at h
+    · rename_i b hb
+      cases h
+      simp only [fromString, unicode_roundtrip v w hb, normVal, hv]
+    · cases h
+  | .dt, _, v, hv, w, h => by
     simp only [Twisted.Amp.Args.toString] at h
-    exact listOf_roundtrip_generic (Twisted.Amp.Args.toString t) (fromString t) v w
-      (fun x _ s hs => ih x s hs) h
+    simp only [fromString, normVal]
+    exact datetime_roundtrip v w hv h
+  | .list t, hs, v, hv, w, h => by
+    simp only [Twisted.Amp.Args.toString] at h
+    simp only [fromString, normVal]
+    simp only [ValidVal] at hv
+    exact listOf_roundtrip_generic_map (Twisted.Amp.Args.toString X t) (fromString X t) (normVal X t) v w
+      (fun x hx s hs' => arg_roundtrip_aux X hC t (supported_list t hs) x (hv x hx) s hs') h
+  | .amplist s, hs, v, hv, w, h => by
+    simp only [Twisted.Amp.Args.toString] at h
+    simp only [fromString, normVal]
+    simp only [Ty.supported, Bool.and_eq_true, decide_eq_true_eq] at hs
+    refine ampList_roundtrip_generic (rowToBox X s) (rowFromBox X s) (normRow X s) v w ?_ h
+    simp only [ValidVal] at hv
+    intro r hr b hb
+    have hsub := rowToBox_keys X s r b hb
+    have hnd : (b.map (·.1)).Nodup := hsub.nodup hs.1
+    exact ⟨hnd, row_roundtrip_aux X hC s hs.2 hs.1 r (hv r hr) b hb (sortItems b) (fun k _ => sortItems_lookup b hnd k)⟩
+theorem row_roundtrip_aux (X : Ext) (hC : X.float.RoundTrips) : (s : Schema) → s.supported = true → s.names.Nodup →
+    (r : Row X s) → ValidRow X s r → (b : Box) → rowToBox X s r = .ok b → (B : Box) → (∀ k ∈ s.names, B.lookup k = b.lookup k) →
+    rowFromBox X s B = .ok (normRow X s r)
+  | .nil, _, _, r, _, b, h, B, hB => by
+    simp only [rowFromBox, normRow]
+    rfl
+  | .cons name true t rest, hs, hn, (none, r), hv, b, h, B, hB => by
+    simp only [ValidRow] at hv
+    simp only [rowToBox] at h
+    simp only [Schema.supported, Bool.and_eq_true] at hs
+    simp only [Schema.names, List.nodup_cons] at hn
+    have hk : name ∉ b.map (·.1) := fun hm => hn.1 ((rowToBox_keys X rest r b h).subset hm)
+    have h1 : B.lookup name = none := by
+      rw [hB name (by simp [Schema.names]), lookup_none_of_not_mem b name hk]
+    simp only [rowFromBox, h1, normRow]
+    rw [row_roundtrip_aux X hC rest hs.2 hn.2 r hv b h B (fun k hk' => hB k (by simp [Schema.names, hk']))]
+  | .cons name true t rest, hs, hn, (some v, r), hv, b, h, B, hB => by
+    simp only [ValidRow] at hv
+    simp only [rowToBox] at h
+    split at h
+    · cases h
+    · rename_i w hw
+      split at h
+      · cases h
+      · rename_i b' hb'
+        cases h
+        simp only [Schema.supported, Bool.and_eq_true] at hs
+        simp only [Schema.names, List.nodup_cons] at hn
+        have h1 : B.lookup name = some w := by
+          rw [hB name (by simp [Schema.names])]; simp
+        have hrest : ∀ k ∈ rest.names, B.lookup k = b'.lookup k := by
+          intro k hk
+          rw [hB k (by simp [Schema.names, hk])]
+          have : (k == name) = false := by
+            simpa using fun (hkn : k = name) => hn.1 (hkn ▸ hk)
+          simp only [List.lookup_cons, this]
+        simp only [rowFromBox, h1, normRow, arg_roundtrip_aux X hC t hs.1 v hv.1 w hw,
+          row_roundtrip_aux X hC rest hs.2 hn.2 r hv.2 b' hb' B hrest]
+  | .cons name false t rest, hs, hn, (v, r), hv, b, h, B, hB => by
+    simp only [ValidRow] at hv
+    simp only [rowToBox] at h
+    split at h
+    · cases h
+    · rename_i w hw
+      split at h
+      · cases h
+      · rename_i b' hb'
+        cases h
+        simp only [Schema.supported, Bool.and_eq_true] at hs
+        simp only [Schema.names, List.nodup_cons] at hn
+        have h1 : B.lookup name = some w := by
+          rw [hB name (by simp [Schema.names])]; simp
+        have hrest : ∀ k ∈ rest.names, B.lookup k = b'.lookup k := by
+          intro k hk
+          rw [hB k (by simp [Schema.names, hk])]
+          have : (k == name) = false := by
+            simpa using fun (hkn : k = name) => hn.1 (hkn ▸ hk)
+          simp only [List.lookup_cons, this]
+        simp only [rowFromBox, h1, normRow, arg_roundtrip_aux X hC t hs.1 v hv.1 w hw,
+          row_roundtrip_aux X hC rest hs.2 hn.2 r hv.2 b' hb' B hrest]
+end
+
+
+/-- **C30, argument types.**  For EVERY argument type of the statement — Integer, String, Unicode, Float,
+    Boolean, Decimal, DateTime, Path, `ListOf` (any depth) and `AmpList` (any schema with distinct names,
+    optional arguments, nested `AmpList`s) — every value that `toString`/`toStringProto` accepts decodes
+    to an equal value, a `DateTime` up to the minute resolution of its UTC offset (`normVal`: the offset
+    is cut to whole minutes towards zero, everything else is untouched).
+    Hypotheses, each a fact about CPython rather than about Twisted:
+    `hF` — `float(repr(x)) == x` (the `FloatCodec` parameter: IEEE formatting is not transcribed),
+    `ValidVal` — the `datetime`s inside are real `datetime` objects and the paths are what a `FilePath`
+    holds (`os.path.abspath` — a parameter too — leaves them alone),
+    `t.supported` — no `ListOf(AmpList(…))` (excluded by `ListOf`'s docstring; the real code raises
+    `TypeError`), schema names distinct. -/
+theorem arg_roundtrip (X : Ext) (hF : X.float.RoundTrips) (t : Ty) (ht : t.supported = true)
+    (v : Val X t) (hv : ValidVal X t v) (w : Bytes) (h : Twisted.Amp.Args.toString X t v = .ok w) :
+    fromString X t w = .ok (normVal X t v) :=
+  arg_roundtrip_aux X hF t ht v hv w h
+
+/-- a `datetime` whose offset is a whole number of minutes comes back exactly -/
+theorem normDT_whole_minutes (d : DT) (m : Int) (h : d.off = some (m * 60000000)) : normDT d = d := by
+  obtain ⟨y, mo, dd, hh, mi, s, us, off⟩ := d
+  simp only at h
+  subst h
+  simp only [normDT]
+  congr 2
+  unfold offsetMinutes
+  split <;> omega
+
+/-- … and in general the decoded offset is the encoded one moved towards zero by less than a minute -/
+theorem offsetMinutes_spec (o : Int) :
+    (0 ≤ o → 0 ≤ offsetMinutes o * 60000000 ∧ offsetMinutes o * 60000000 ≤ o ∧ o < offsetMinutes o * 60000000 + 60000000)
+    ∧ (o ≤ 0 → offsetMinutes o * 60000000 ≤ 0 ∧ o ≤ offsetMinutes o * 60000000 ∧ offsetMinutes o * 60000000 - 60000000 < o) := by
+  unfold offsetMinutes
+  constructor <;> intro h <;> split <;> omega
+
+/-- `DateTime.toString` refuses exactly naive values and offsets of a day or more -/
+theorem datetime_accepts_iff (d : DT) : (∃ w, dtToString d = .ok w) ↔ ∃ o, d.off = some o ∧ -86400000000 < o ∧ o < 86400000000 := by
+  obtain ⟨y, mo, dd, hh, mi, s, us, off⟩ := d
+  cases off with
+  | none => simp [dtToString]
+  | some o =>
+    by_cases hr : o ≤ -86400000000 ∨ 86400000000 ≤ o
+    · simp only [dtToString, hr, if_true]
+      constructor
+      · rintro ⟨w, hw⟩; cases hw
+      · rintro ⟨o', ho', h1, h2⟩; cases ho'; omega
+    · simp only [dtToString, hr, if_false]
+      exact ⟨fun _ => ⟨o, rfl, by omega, by omega⟩, fun _ => ⟨_, rfl⟩⟩
+
+/-- **Decimal** on its own: `Decimal(str(d)) == d` for every `Decimal`, the specials included -/
+theorem decimal_roundtrip (d : Dec) : decFromString (decToString d) = .ok d := decFromString_toString d
+
+
+mutual
+/-- no `DateTime` anywhere inside the type -/
+def noDateTime : Ty → Bool
+  | .dt => false
+  | .list t => noDateTime t
+  | .amplist s => noDateTimeS s
+  | _ => true
+def noDateTimeS : Schema → Bool
+  | .nil => true
+  | .cons _ _ t rest => noDateTime t && noDateTimeS rest
+end
+
+mutual
+/-- without a `DateTime` inside, "equal up to the offset resolution" is plain equality -/
+theorem normVal_id (X : Ext) : (t : Ty) → noDateTime t = true → (v : Val X t) → normVal X t v = v
+  | .int, _, _ => rfl
+  | .str, _, _ => rfl
+  | .uni, _, _ => rfl
+  | .bool, _, _ => rfl
+  | .float, _, _ => rfl
+  | .dec, _, _ => rfl
+  | .path, _, _ => rfl
+  | .dt, h, _ => by simp [noDateTime] at h
+  | .list t, h, v => by
+    simp only [noDateTime] at h
+    simp only [normVal]
+    exact (List.map_congr_left (fun x _ => normVal_id X t h x)).trans (List.map_id v)
+  | .amplist s, h, v => by
+    simp only [noDateTime] at h
+    simp only [normVal]
+    exact (List.map_congr_left (fun x _ => normRow_id X s h x)).trans (List.map_id v)
+theorem normRow_id (X : Ext) : (s : Schema) → noDateTimeS s = true → (r : Row X s) → normRow X s r = r
+  | .nil, _, _ => rfl
+  | .cons _ true t rest, h, (none, r) => by
+    simp only [noDateTimeS, Bool.and_eq_true] at h
+    simp only [normRow, normRow_id X rest h.2 r]
+    rfl
+  | .cons _ true t rest, h, (some v, r) => by
+    simp only [noDateTimeS, Bool.and_eq_true] at h
+    simp only [normRow, normRow_id X rest h.2 r, normVal_id X t h.1 v]
+    rfl
+  | .cons _ false t rest, h, (v, r) => by
+    simp only [noDateTimeS, Bool.and_eq_true] at h
+    simp only [normRow, normRow_id X rest h.2 r, normVal_id X t h.1 v]
+    rfl
+end
+
+/-- what `Path.fromString` returns is again a value a `FilePath` holds (given that `abspath` is idempotent) -/
+theorem path_decoded_valid (X : Ext) (hA : X.AbspathIdempotent) (s : Bytes) (p : List Nat)
+    (h : fromString X .path s = .ok p) : ValidVal X .path p := by
+  simp only [fromString] at h
+  split at h
+  · cases h; exact hA _
+  · cases h
+
+theorem mkDateTime_off (y mo d h mi s us m : Int) (dt : DT) (hmk : mkDateTime y mo d h mi s us m = some dt) :
+    dt.off = some (m * 60000000) := by
+  unfold mkDateTime at hmk
+  split at hmk
+  · cases hmk; rfl
+  · cases hmk
+
+/-- what `DateTime.fromString` returns has a whole-minute offset: encoding it again loses nothing -/
+theorem datetime_decoded_whole_minutes (s : Bytes) (d : DT) (h : dtFromString s = .ok d) :
+    ∃ m : Int, d.off = some (m * 60000000) := by
+  unfold dtFromString at h
+  split at h
+  · cases h
+  · split at h
+    · rename_i d' hd'
+      cases h
+      unfold dtParse at hd'
+      split at hd'
+      · have step : ∀ {α : Type} (o : Option α) (f : α → Option DT), o.bind f = some d → ∃ a, f a = some d := by
+          intro α o f h
+          cases o with
+          | none => simp at h
+          | some a => exact ⟨a, by simpa using h⟩
+        simp only [Option.bind_eq_bind] at hd'
+        obtain ⟨_, hd'⟩ := step _ _ hd'
+        obtain ⟨_, hd'⟩ := step _ _ hd'
+        obtain ⟨_, hd'⟩ := step _ _ hd'
+        obtain ⟨_, hd'⟩ := step _ _ hd'
+        obtain ⟨_, hd'⟩ := step _ _ hd'
+        obtain ⟨_, hd'⟩ := step _ _ hd'
+        obtain ⟨_, hd'⟩ := step _ _ hd'
+        obtain ⟨_, hd'⟩ := step _ _ hd'
+        obtain ⟨_, hd'⟩ := step _ _ hd'
+        split at hd'
+        · exact ⟨_, mkDateTime_off _ _ _ _ _ _ _ _ _ (by simpa using hd')⟩
+        · split at hd'
+          · exact ⟨_, mkDateTime_off _ _ _ _ _ _ _ _ _ (by simpa using hd')⟩
+          · simp at hd'
+      · cases hd'
+    · cases h
 
 /-! ### Non-vacuity (arguments) -/
 
@@ -324,9 +712,89 @@ example : utf8Encode [0x41, 0xE9, 0x20AC, 0x1F600] = some [0x41, 0xC3, 0xA9, 0xE
 example : utf8Decode [0x41, 0xC3, 0xA9, 0xE2, 0x82, 0xAC, 0xF0, 0x9F, 0x98, 0x80] = some [0x41, 0xE9, 0x20AC, 0x1F600] := by decide
 example : utf8Encode [0x61, 0xD800] = none := by decide
 example : utf8Decode [0xC0, 0x80] = none ∧ utf8Decode [0xED, 0xA0, 0x80] = none ∧ utf8Decode [0xF4, 0x90, 0x80, 0x80] = none := by decide
+/-- a stand-in for the platform parameters in the examples: floats as their text, `abspath` = identity -/
+def exX : Ext := ⟨⟨Bytes, id, some⟩, id⟩
+
+theorem exX_float : exX.float.RoundTrips := fun _ => rfl
+
 /-- `ListOf(ListOf(Unicode()))` of `[["é", ""], []]` -/
-example : (match Twisted.Amp.Args.toString (.list (.list .uni)) ([[[0xE9], []], []] : List (List (List Nat))) with
+example : (match Twisted.Amp.Args.toString exX (.list (.list .uni)) ([[[0xE9], []], []] : List (List (List Nat))) with
     | .ok w => w == [0, 6, 0, 2, 0xC3, 0xA9, 0, 0, 0, 0] | _ => false) = true := by decide
+
+/-- `2012-01-23T12:34:56.054321` at UTC−01:00:30 is written with `-01:00` … -/
+example : dtToString ⟨2012, 1, 23, 12, 34, 56, 54321, some (-3630000000)⟩
+    = .ok [50, 48, 49, 50, 45, 48, 49, 45, 50, 51, 84, 49, 50, 58, 51, 52, 58, 53, 54, 46, 48, 53, 52, 51, 50, 49,
+           45, 48, 49, 58, 48, 48] := by
+  rw [dtToString_explicit _ _ _ _ _ _ _ _ (by decide) (by decide) (by decide)]
+  rfl
+
+/-- … and comes back with the offset −01:00 -/
+example : dtFromString [50, 48, 49, 50, 45, 48, 49, 45, 50, 51, 84, 49, 50, 58, 51, 52, 58, 53, 54, 46, 48, 53, 52, 51, 50, 49,
+           45, 48, 49, 58, 48, 48] = .ok (normDT ⟨2012, 1, 23, 12, 34, 56, 54321, some (-3630000000)⟩) :=
+  datetime_roundtrip _ _ (by decide) (by
+    rw [dtToString_explicit _ _ _ _ _ _ _ _ (by decide) (by decide) (by decide)]; rfl)
+
+example : normDT ⟨2012, 1, 23, 12, 34, 56, 54321, some (-3630000000)⟩ = ⟨2012, 1, 23, 12, 34, 56, 54321, some (-3600000000)⟩ := by
+  decide
+
+/-- the offset −23:59:59 is written `-23:59` (flooring gave the undecodable `-24:00`) -/
+example : offsetMinutes (-86399000000) = -1439 := by decide
+
+/-- `int()` leniency, ignored separators and an out-of-range offset are accepted by `fromString`; 30 February is not -/
+example : (match dtFromString [32, 48, 49, 50, 120, 48, 49, 121, 50, 51, 122, 49, 50, 97, 51, 52, 98, 53, 54, 99, 48, 53, 52, 51, 50, 49,
+      43, 57, 57, 100, 57, 57] with
+    | .ok d => d == ⟨12, 1, 23, 12, 34, 56, 54321, some ((99 * 60 + 99) * 60000000)⟩ | _ => false) = true := by decide
+example : (match dtFromString [50, 48, 49, 50, 45, 48, 50, 45, 51, 48, 84, 49, 50, 58, 51, 52, 58, 53, 54, 46, 48, 53, 52, 51, 50, 49,
+      43, 48, 49, 58, 48, 48] with
+    | .error .valueError => true | _ => false) = true := by decide
+
+/-- `Decimal("-12.34")`, `Decimal("1.5E+2")`, `Decimal(" -sNaN0_07 ")`, `Decimal("iNfInItY")` -/
+example : (match decFromString [45, 49, 50, 46, 51, 52] with | .ok d => d == .fin true 1234 (-2) | _ => false) = true := by decide
+example : (match decFromString [49, 46, 53, 69, 43, 50] with | .ok d => d == .fin false 15 1 | _ => false) = true := by decide
+example : (match decFromString [32, 45, 115, 78, 97, 78, 48, 95, 48, 55, 32] with | .ok d => d == .nan true true 7 | _ => false) = true := by
+  decide
+example : (match decFromString [105, 78, 102, 73, 110, 73, 116, 89] with | .ok d => d == .inf false | _ => false) = true := by decide
+example : (match decFromString [49, 69] with | .error .invalidOperation => true | _ => false) = true := by decide
+
+theorem natToDec_1234 : natToDec 1234 = [49, 50, 51, 52] := by
+  rw [natToDec_unfold, natToDec_unfold, natToDec_unfold, natToDec_unfold]; decide
+theorem natToDec_15 : natToDec 15 = [49, 53] := by
+  rw [natToDec_unfold, natToDec_unfold]; decide
+theorem natToDec_2 : natToDec 2 = [50] := by
+  rw [natToDec_unfold]; decide
+
+/-- `str(Decimal((1, (1,2,3,4), -2))) == "-12.34"`, `str(Decimal((0, (1,5), 1))) == "1.5E+2"`,
+    `str(Decimal((0, (1,), -7))) == "1E-7"` -/
+example : decToString (.fin true 1234 (-2)) = [45, 49, 50, 46, 51, 52] := by
+  simp only [decToString, natToDec_1234]; decide
+example : decToString (.fin false 15 1) = [49, 46, 53, 69, 43, 50] := by
+  simp only [decToString, natToDec_15, fmtPlusD]
+  have hc : ¬ ((1 : Int) ≤ 0 ∧ 1 + (([49, 53] : List UInt8).length : Int) > -6) := by decide
+  simp only [if_neg hc]
+  rw [show (1 + (([49, 53] : List UInt8).length : Int) - 1).natAbs = 2 from by decide, natToDec_2]
+  decide
+
+/-- an `AmpList([(b"u", Unicode(optional=True)), (b"s", String())])` of `[{u: "é", s: b"a"}, {u: None, s: b""}]`:
+    two boxes, keys in sorted order -/
+def exSchema : Ty := .amplist (.cons [117] true .uni (.cons [115] false .str .nil))
+def exRows : Val exX exSchema := [(some [0xE9], ([97], ())), (none, ([], ()))]
+def exWire : Bytes := [0, 1, 115, 0, 1, 97, 0, 1, 117, 0, 2, 0xC3, 0xA9, 0, 0, 0, 1, 115, 0, 0, 0, 0]
+
+example : Twisted.Amp.Args.toString exX exSchema exRows = .ok exWire := by rfl
+
+example : fromString exX exSchema exWire = .ok exRows :=
+  arg_roundtrip exX exX_float exSchema (by decide) exRows (by
+    intro r hr
+    rcases List.mem_cons.mp hr with rfl | hr
+    · exact ⟨trivial, trivial, trivial⟩
+    rcases List.mem_cons.mp hr with rfl | hr
+    · exact ⟨trivial, trivial⟩
+    · cases hr) exWire (by rfl)
+
+/-- a row without its required key is `KeyError` -/
+example : (match rowFromBox exX (.cons [117] true .uni (.cons [115] false .str .nil)) [([117], [65])] with
+    | .error .keyError => true | _ => false) = true := by decide
+
 
 end Arguments
 
